@@ -50,6 +50,6 @@ def main(tier, seed, replay=None):
     if replay:
         return minic.replay(PID, replay)
     progs = population(tier, seed)
-    sizes = (40, 300, 100) if tier == "quick" else (80, 400, 500)
+    sizes = (30, 300, 100) if tier == "quick" else (80, 400, 500)
     rc, _cov = minic.run_check(PID, tier, seed, progs, "verdict", sizes, assumptions=ASSUMPTIONS)
     return rc
